@@ -297,4 +297,66 @@ theorem safeOps_writeFile_self (n : Name) (good : Bytes → Bool) (d : Dir) (c :
   have h := tmp_ne n
   simp [writeFile, safeOps, h, Op.apply, get_set_self, hg]
 
+/-! ## write faults -/
+
+theorem writeFileLim_ok (k : Nat) (n : Name) (c : Bytes) (h : c.length ≤ k) :
+    writeFileLim k n c = (writeFile true n c, true) := by
+  unfold writeFileLim; simp [h]
+
+theorem writeFileLim_fault (k : Nat) (n : Name) (c : Bytes) (h : ¬ c.length ≤ k) :
+    writeFileLim k n c =
+      (.openTrunc (tmpName n) ::
+        ((if k = 0 then [] else [.write (tmpName n) (c.take k)]) ++ [.close (tmpName n), .unlink (tmpName n)]),
+       false) := by
+  unfold writeFileLim; simp [h]
+
+/-- a faulted `atomicfile.WriteFile` leaves every file but its temp file untouched, in every
+    crash state -/
+theorem writeFileLim_fault_untouched (d : Dir) (k : Nat) (n m : Name) (c : Bytes)
+    (hf : (writeFileLim k n c).2 = false) (hm : m ≠ tmpName n) :
+    ∀ s ∈ crashStates d (writeFileLim k n c).1, get s m = get d m := by
+  have hlen : ¬ c.length ≤ k := by
+    intro h; rw [writeFileLim_ok k n c h] at hf; cases hf
+  rw [writeFileLim_fault k n c hlen]
+  intro s hs
+  by_cases hk : k = 0
+  · simp only [hk, if_true, List.nil_append, crashStates, torn, List.mem_cons, List.mem_append,
+      List.not_mem_nil, or_false, false_or] at hs
+    rcases hs with rfl | rfl | rfl | rfl <;>
+      simp [Op.apply, get_set_ne _ _ _ _ hm, get_del_ne _ _ _ hm]
+  · simp only [hk, if_false, List.cons_append, List.nil_append, crashStates, torn, List.mem_cons,
+      List.mem_append, List.mem_map, List.mem_range, List.not_mem_nil, or_false, false_or] at hs
+    rcases hs with rfl | rfl | ⟨j, _, rfl⟩ | rfl | rfl | rfl <;>
+      simp [Op.apply, get_set_ne _ _ _ _ hm, get_del_ne _ _ _ hm]
+
+/-- … and removes the temp file -/
+theorem writeFileLim_fault_tmp_removed (d : Dir) (k : Nat) (n : Name) (c : Bytes)
+    (hf : (writeFileLim k n c).2 = false) :
+    get (run d (writeFileLim k n c).1) (tmpName n) = none := by
+  have hlen : ¬ c.length ≤ k := by
+    intro h; rw [writeFileLim_ok k n c h] at hf; cases hf
+  rw [writeFileLim_fault k n c hlen]
+  by_cases hk : k = 0 <;> simp [hk, run, Op.apply, get_del_self]
+
+theorem writeFileLim_other (d : Dir) (k : Nat) (n m : Name) (c : Bytes) (h1 : m ≠ n) (h2 : m ≠ tmpName n) :
+    ∀ s ∈ crashStates d (writeFileLim k n c).1, get s m = get d m := by
+  by_cases hlen : c.length ≤ k
+  · rw [writeFileLim_ok k n c hlen]; exact writeFile_other true d n m c h1 h2
+  · exact writeFileLim_fault_untouched d k n m c (by rw [writeFileLim_fault k n c hlen]) h2
+
+/-- old or new under write faults: the target holds its old content, or — only if the write
+    succeeded — the complete new content -/
+theorem writeFileLim_old_or_new (d : Dir) (k : Nat) (n : Name) (c : Bytes) :
+    ∀ s ∈ crashStates d (writeFileLim k n c).1,
+      get s n = get d n ∨ ((writeFileLim k n c).2 = true ∧ get s n = some c) := by
+  by_cases hlen : c.length ≤ k
+  · rw [writeFileLim_ok k n c hlen]
+    intro s hs
+    rcases writeFile_fixed_old_or_new d n c s hs with h | h
+    · exact Or.inl h
+    · exact Or.inr ⟨rfl, h⟩
+  · intro s hs
+    exact Or.inl (writeFileLim_fault_untouched d k n n c (by rw [writeFileLim_fault k n c hlen])
+      (tmp_ne n).symm s hs)
+
 end O4.SF
